@@ -16,6 +16,7 @@ sys.path.insert(0, REPO)
 os.chdir(REPO)
 os.environ.setdefault("POLAR_VERIF", "1")
 
+import re
 import sympy  # noqa: E402
 import sympy.stats  # noqa: E402
 import symengine  # noqa: E402
@@ -264,6 +265,24 @@ def classify_value(v):
     v = sympy.sympify(v)
     if v.has(sympy.nan, sympy.zoo, sympy.oo, -sympy.oo):
         return {"undef": str(v)}
+    if v.free_symbols and all(re.fullmatch(r"_prob\d+", str(s)) for s in v.free_symbols):
+        # probabilities of abstracted conditions (ConditionsNormalizer): the answer is parametric in constants that
+        # Polar defines as P(condition) in [0, 1]; multilinear answers are enclosed by their values at the vertices
+        out = {"absprob": sorted(str(s) for s in v.free_symbols), "expr": str(v)}
+        try:
+            syms = sorted(v.free_symbols, key=str)
+            real = {s: sympy.Symbol("r" + str(s), real=True) for s in syms}
+            w = sympy.expand(sympy.simplify(v.xreplace(real)))
+            pol = sympy.Poly(w, *real.values())
+            if all(d <= 1 for mon in pol.monoms() for d in mon) and len(syms) <= 6:
+                import itertools
+                vals = [sympy.nsimplify(w.xreplace(dict(zip(real.values(), bits)))) for bits in itertools.product((0, 1), repeat=len(syms))]
+                if all(x.is_Rational for x in vals):
+                    lo, hi = min(vals), max(vals)
+                    out.update(lo=f"{int(lo.p)}/{int(lo.q)}", hi=f"{int(hi.p)}/{int(hi.q)}")
+        except Exception:
+            pass
+        return out
     if v.free_symbols:
         return {"free": sorted(str(s) for s in v.free_symbols), "expr": str(v)}
     if v.is_Rational:
@@ -289,6 +308,69 @@ def classify_value(v):
 class Namespace:
     def __init__(self, **kw):
         self.__dict__.update(kw)
+
+
+def features(program):
+    """structural facts about a program object (observation only; spec/Pipeline.tla states what each pass must
+    establish and keep): G non-trivial loop guard, I if-statements, M a variable assigned more than once in the loop
+    body, R an atom that is not `variable cop number', N an atom that is not `variable == number' or a negation,
+    C an assignment with a condition, P a Normal/Uniform/Laplace/Exponential draw whose parameters mention variables"""
+    from program.ifstatem import IfStatem
+    from program.condition import TrueCond, Atom, And, Or, Not
+    from program.assignment import DistAssignment
+    from program.distribution import Normal, Uniform, Laplace, Exponential
+    f = set()
+    conds, assigns = [], []
+
+    def walk(stmts, top_body):
+        for st in stmts:
+            if isinstance(st, IfStatem):
+                f.add("I")
+                conds.extend(st.conditions)
+                for b in st.branches:
+                    walk(b, top_body)
+                if st.else_branch:
+                    walk(st.else_branch, top_body)
+            else:
+                assigns.append((st, top_body))
+                conds.append(st.condition)
+    walk(program.initial, False)
+    walk(program.loop_body, True)
+    if not isinstance(program.loop_guard, TrueCond):
+        f.add("G")
+    conds.append(program.loop_guard)
+    count = {}
+    for a, in_body in assigns:
+        if in_body:
+            count[str(a.variable)] = count.get(str(a.variable), 0) + 1
+        if not isinstance(a.condition, TrueCond):
+            f.add("C")
+        if isinstance(a, DistAssignment) and isinstance(a.distribution, (Normal, Uniform, Laplace, Exponential)):
+            if any(str(x) in {str(v) for v in program.variables} for x in a.distribution.get_free_symbols()):
+                f.add("P")
+    if any(c > 1 for c in count.values()):
+        f.add("M")
+
+    def atoms(c):
+        if isinstance(c, Atom):
+            yield c
+        elif isinstance(c, (And, Or)):
+            yield from atoms(c.cond1)
+            yield from atoms(c.cond2)
+        elif isinstance(c, Not):
+            f.add("N")
+            yield from atoms(c.cond)
+    for c in conds:
+        for a in atoms(c):
+            l, r = sympy.sympify(str(a.poly1)), sympy.sympify(str(a.poly2))
+            if l.is_number and r.is_number:
+                continue
+            if not (l.is_Symbol and r.is_number):
+                f.add("R")
+                f.add("N")
+            elif a.cop != "==":
+                f.add("N")
+    return sorted(f)
 
 
 def install_pass_recorder(snapshots, exporter_factory):
@@ -321,6 +403,10 @@ def install_pass_recorder(snapshots, exporter_factory):
                     snapshots.append({"pass": _name, "progs": exporter_factory(res)})
                 except Unsupported as ex:
                     snapshots.append({"pass": _name, "unsupported": str(ex)})
+                try:
+                    snapshots[-1]["feat"] = features(res)
+                except Exception as ex:
+                    snapshots[-1]["feat_error"] = f"{type(ex).__name__}: {ex}"
             return res
         cls.execute = wrapped
 
@@ -413,6 +499,11 @@ def job_analyze(job):
             res["parsed_unsupported"] = str(ex)
 
     # ---- normalize (recording every pass)
+    if "passes" in want:
+        try:
+            res["feat0"] = features(program)
+        except Exception as ex:
+            res["feat0_error"] = f"{type(ex).__name__}: {ex}"
     snapshots = []
     restore = install_pass_recorder(snapshots, exporter_factory) if "passes" in want else (lambda: None)
     try:
